@@ -80,6 +80,8 @@ def run(ctx):
     prog = ctx.program(facts.AS_CONFIGURED, 'lib')
     cg = ctx.callgraph(facts.AS_CONFIGURED, 'lib')
     A = prog.require_func(ACTION)
+    from engine import inline as _inlA
+    A = _inlA.inlined(prog, A)      # the action may hand the filter test and the composing/sending to file-local helpers
     G = prog.require_func(GEN)
     from engine import inline as _inl
     G = _inl.inlined(prog, G)      # the expansion loop may hand parts of its work to file-local helpers
@@ -351,7 +353,7 @@ def run(ctx):
     n = 0
     from engine import inline
     for f0 in prog.functions:
-        if f0 is A:
+        if f0.name == A.name:
             continue
         if f0.internal and any(g.tu is f0.tu and g is not f0 and g.calls(f0.name) for g in prog.functions):
             continue        # a file-local helper: judged inside the inlined view of its callers
